@@ -84,6 +84,19 @@ package sqlite
 //@ spec 	a, ok := changes[k-1].(*schema.AddColumn)
 //@ spec 	return (ok && a.C.Name == n) || gvcAnyAdds(changes, k-1, n)
 //@ spec }
+// among the first k changes there is a RENAME COLUMN whose new name is n
+//@ rec gvcAnyRenamesTo fuel
+//@ spec func gvcAnyRenamesTo(changes []schema.Change, k int, n string) bool {
+//@ spec 	if k <= 0 {
+//@ spec 		return false
+//@ spec 	}
+//@ spec 	r, ok := changes[k-1].(*schema.RenameColumn)
+//@ spec 	return (ok && r.To.Name == n) || gvcAnyRenamesTo(changes, k-1, n)
+//@ spec }
+// the copy lists pair the column n with itself at some index
+//@ spec func gvcCopiedVerbatim(toC []string, fromC []string, n string) bool {
+//@ spec 	return (some q int :: 0 <= q && q < len(toC) && q < len(fromC) && toC[q] == n && fromC[q] == n)
+//@ spec }
 //@ rec gvcColChangeOK
 //@ spec func gvcColChangeOK(c schema.Change) bool {
 //@ spec 	return (!GvcIs[*schema.AddColumn](c) || (c.(*schema.AddColumn) != nil && c.(*schema.AddColumn).C != nil)) &&
@@ -115,12 +128,16 @@ package sqlite
 //@   loop 1 invariant GvcSameElems(to.Columns) && GvcSameElems(changes)
 //@   loop 1 invariant every-surviving-column-receives-its-old-values: (forall p int :: 0 <= p && p < loopk &&
 //@           !gvcGenerated(to.Columns[p]) && !gvcAnyAdds(changes, len(changes), to.Columns[p].Name) ==> gvcHasName(toC, to.Columns[p].Name))
+//@   loop 1 invariant nullable-columns-are-read-verbatim: (forall p int :: 0 <= p && p < loopk &&
+//@           !gvcGenerated(to.Columns[p]) && !gvcAnyAdds(changes, len(changes), to.Columns[p].Name) &&
+//@           to.Columns[p].Type.Null && !gvcAnyRenamesTo(changes, len(changes), to.Columns[p].Name) ==> gvcHasName(fromC, to.Columns[p].Name))
 //@   loop 1 invariant (forall p int :: 0 <= p && p < loopk &&
 //@           !gvcGenerated(to.Columns[p]) && !gvcAnyAdds(changes, len(changes), to.Columns[p].Name) ==> len(toC) > 0)
 //@   loop 1 invariant len(toC) > 0 ==> (exists p int :: 0 <= p && p < loopk &&
 //@           !gvcGenerated(to.Columns[p]) && !gvcAnyAdds(changes, len(changes), to.Columns[p].Name))
 //@   loop 2 invariant 0 <= loopk && loopk <= len(changes)
 //@   loop 2 invariant gvcAnyAdds(changes, loopk, column.Name) == (change != nil && GvcIs[*schema.AddColumn](change))
+//@   loop 2 invariant gvcAnyRenamesTo(changes, loopk, column.Name) == (change != nil && GvcIs[*schema.RenameColumn](change))
 //@   loop 2 invariant GvcIs[*schema.ModifyColumn](change) ==> change.(*schema.ModifyColumn) != nil && change.(*schema.ModifyColumn).To != nil && change.(*schema.ModifyColumn).To.Name == column.Name
 //@   loop 2 invariant GvcIs[*schema.RenameColumn](change) ==> change.(*schema.RenameColumn) != nil && change.(*schema.RenameColumn).To != nil && change.(*schema.RenameColumn).From != nil && change.(*schema.RenameColumn).To.Name == column.Name
 //@   loop 2 invariant change == nil || GvcIs[*schema.AddColumn](change) || GvcIs[*schema.ModifyColumn](change) || GvcIs[*schema.RenameColumn](change)
